@@ -306,6 +306,12 @@ theorem step_cart_port_logs (depth P L : Nat) (S es : List Ev) (hwf : WFCart dep
     (portLog p (runCart depth P es).out).Perm (portLog p (specCart depth P S)) :=
   Comb.step_cart_port_logs S es hwf hperm p
 
+/-- **Final status of a dot-product `CombinatorStep`** whose inputs all terminate with `COMPLETED`: `COMPLETED` exactly
+    when the specification is not empty (else `SKIPPED`), for every arrival order of a well-formed stream. -/
+theorem step_dot_status (P : Nat) (hP : 0 < P) (S es : List Ev) (hwf : WFDot P S) (hperm : es.Perm S) :
+    stepStatus (List.range P) (runDot P es).out = .completed ↔ specDot P S ≠ [] :=
+  Comb.step_dot_status hP S es hwf hperm
+
 /-- non-vacuity: the specified log of output port 0 in the broadcast-to-two-children stream, and the step status -/
 example : portLog 0 (specDot 2 [(0, ⟨[0], 1⟩), (1, ⟨[0, 10], 2⟩), (1, ⟨[0, 9], 3⟩)]) = [⟨[0, 10], 1⟩, ⟨[0, 9], 1⟩] := by decide
 example : stepStatus [0, 1] (runDot 2 [(1, ⟨[0, 10], 2⟩), (0, ⟨[0], 1⟩), (1, ⟨[0, 9], 3⟩)]).out = .completed ∧
